@@ -1,6 +1,6 @@
 (* C14 — SetPower input domain and unit conversion. *)
 From stdpp Require Import gmap.
-Require Import Model.Base Model.Validate Model.Current Model.State Model.Staking Model.Slashing Model.Poa proofs.ValidateProofs proofs.L1Basic proofs.L1Effects.
+Require Import Model.Base Model.Validate Model.Current Model.State Model.Staking Model.Slashing Model.Poa proofs.ValidateProofs proofs.L1Basic proofs.L1Effects proofs.FloatAbs.
 
 (* for every 64-bit unsigned power: accepted by Validate iff 1_000_000 <= p <= 2^63-1 *)
 Theorem C14_domain : forall p, 0 <= p < two64 ->
@@ -52,3 +52,24 @@ Example C14_boundaries :
   cur_setpower_validate true (2^63) = Err ESdkInvalidRequest /\
   cur_setpower_validate true (2^64 - 1) = Err ESdkInvalidRequest.
 Proof. vm_compute. repeat split. Qed.
+
+(* the one floating-point step of the code, uint64(math.Abs(float64(newPower - powerBefore))): with IEEE 754 binary64 as Flocq
+   formalises it (conversion rounds to nearest even, Abs clears the sign, the conversion back truncates), the result is the exact
+   absolute difference for every difference below 2^53 in absolute value ... *)
+Theorem C14_float_step_is_exact : forall d, Z.abs d < 2 ^ 53 -> go_abs_diff d = Z.abs d.
+Proof. exact go_abs_diff_exact. Qed.
+
+(* ... and the differences the code forms are: both powers are token amounts below 2^63 divided by 10^6. So the model's
+   [Z.abs (new_power - power_before)] in SetPOAPower is what the Go computes. *)
+Theorem C14_power_differences_fit : forall n t,
+  0 <= n <= max_int64 -> 0 <= t <= max_int64 ->
+  go_abs_diff (tokens_to_power n - tokens_to_power t) = Z.abs (tokens_to_power n - tokens_to_power t) /\
+  go_abs_diff (tokens_to_power n - 0) = Z.abs (tokens_to_power n - 0).
+Proof.
+  intros n t Hn Ht.
+  assert (B : forall x, 0 <= x <= max_int64 -> 0 <= tokens_to_power x < 2 ^ 52).
+  { intros x Hx. unfold tokens_to_power, power_reduction. unfold max_int64, two63 in Hx. split; [apply Z.div_pos; lia|].
+    apply Z.div_lt_upper_bound; [lia|]. change (2 ^ 52) with 4503599627370496. change (2 ^ 63) with 9223372036854775808 in Hx. lia. }
+  pose proof (B n Hn). pose proof (B t Ht). change (2 ^ 52) with 4503599627370496 in *.
+  split; apply go_abs_diff_exact; change (2 ^ 53) with 9007199254740992; lia.
+Qed.
